@@ -1,12 +1,267 @@
-//! stub: property C19 has no correspondence harness yet
-use super::Prop;
-use crate::common::CaseResult;
+//! C19 — no peer-controlled input makes the library panic (exploration / differential fuzz).
+//!
+//! case line = `<entry> key=value… <hex bytes>`.  Every case runs under `catch_unwind` in its
+//! own watchdog thread (profile: overflow-checks + debug-assertions on).  Entries with a
+//! panic-explicit Lean model print the implementation's classification, which the model must
+//! reproduce; pure fuzz entries print the constant `unmodelled`.  Oracle: never a panic, never a hang.
+use std::{
+    panic::{catch_unwind, AssertUnwindSafe},
+    sync::mpsc,
+    time::Duration,
+};
 
-pub fn prop() -> Prop {
-    Prop {
-        rule: "unimplemented",
-        parallel: false,
-        gen: Box::new(|_| Vec::new()),
-        run: Box::new(|_| CaseResult::ok("unimplemented".to_owned())),
+
+use super::Prop;
+use crate::common::{unhex, CaseResult};
+
+#[path = "../c19_sock.rs"]
+mod c19_sock;
+#[path = "../c19_entries.rs"]
+mod entries;
+#[path = "../c19_gen.rs"]
+mod gen;
+
+const RULE: &str = "cases = (entry point, parameters, hex bytes, fragmentation): structured mutations of valid \
+messages (bit flips, truncation at every offset, length fields in {0,1,125,126,2^16-1,2^16,2^31,2^63,2^64-1}, \
+duplicated/oversized fields, huge digit strings, CR/LF/NUL/UTF-8 injection) and random bytes, whole and fragmented, \
+over: h1 server (actix-web App on an in-memory socket), h1 client codec, ws parser/codec, multipart, router, files, \
+Query/Path/Form, ConnectionInfo, typed headers, cookies, and the panic-explicit modelled cores (chunked/length \
+body decoder, Content-Length, ws Parser::parse, Range header, router u16 offsets, files range arithmetic, Forwarded); \
+a case is non-trivial if the parser accepted at least part of the input (a frame, a request, a field, a match …); \
+distinct = distinct (case, output) hashes";
+
+/// wall-clock limit per case (generous: the machine is shared)
+const WATCHDOG: Duration = Duration::from_secs(60);
+/// after this many watchdog timeouts of one entry its remaining cases are skipped (a mutation
+/// that makes a parser spin would otherwise cost 60 s per case)
+const MAX_TIMEOUTS_PER_ENTRY: usize = 4;
+
+static TIMEOUTS: std::sync::Mutex<Vec<(String, usize)>> = std::sync::Mutex::new(Vec::new());
+
+fn timeouts_of(entry: &str) -> usize {
+    TIMEOUTS.lock().unwrap().iter().find(|(e, _)| e == entry).map(|(_, n)| *n).unwrap_or(0)
+}
+
+fn note_timeout(entry: &str) {
+    let mut t = TIMEOUTS.lock().unwrap();
+    if let Some(x) = t.iter_mut().find(|(e, _)| e == entry) {
+        x.1 += 1;
+    } else {
+        t.push((entry.to_owned(), 1));
     }
 }
+
+pub struct Out {
+    pub output: String,
+    pub tags: Vec<String>,
+    pub nontrivial: bool,
+    /// `Some(what)` = the case did not terminate within its step budget
+    pub hang: Option<String>,
+}
+
+impl Out {
+    pub fn new(output: impl Into<String>) -> Out {
+        Out { output: output.into(), tags: vec![], nontrivial: false, hang: None }
+    }
+    pub fn nopanic() -> Out {
+        Out::new("nopanic")
+    }
+    pub fn tag(mut self, t: impl Into<String>) -> Out {
+        self.tags.push(t.into());
+        self
+    }
+    pub fn nt(mut self, b: bool) -> Out {
+        self.nontrivial = self.nontrivial || b;
+        self
+    }
+    pub fn hang(mut self, what: impl Into<String>) -> Out {
+        self.hang = Some(what.into());
+        self
+    }
+}
+
+pub struct Case<'a> {
+    pub entry: &'a str,
+    pub words: Vec<&'a str>,
+    pub bytes: Vec<u8>,
+}
+
+impl<'a> Case<'a> {
+    pub fn kv(&self, key: &str) -> Option<&'a str> {
+        self.words.iter().find_map(|w| w.strip_prefix(key).and_then(|r| r.strip_prefix('=')))
+    }
+    pub fn kv_bytes(&self, key: &str) -> Option<Vec<u8>> {
+        self.kv(key).and_then(unhex)
+    }
+    pub fn kv_u64(&self, key: &str, d: u64) -> u64 {
+        self.kv(key).and_then(|v| v.parse().ok()).unwrap_or(d)
+    }
+    /// `seg=-` whole, `seg=1*` bytewise, `seg=a,b,c` cut sizes (remainder last)
+    pub fn segs(&self) -> Vec<Vec<u8>> {
+        split_segs(self.kv("seg"), &self.bytes)
+    }
+}
+
+pub fn split_segs(spec: Option<&str>, bytes: &[u8]) -> Vec<Vec<u8>> {
+    match spec {
+        None | Some("-") => vec![bytes.to_vec()],
+        Some("1*") => bytes.iter().map(|b| vec![*b]).collect(),
+        Some(s) => {
+            let mut out = Vec::new();
+            let mut rest = bytes;
+            for c in s.split(',').filter_map(|c| c.parse::<usize>().ok()) {
+                let n = c.min(rest.len());
+                out.push(rest[..n].to_vec());
+                rest = &rest[n..];
+            }
+            out.push(rest.to_vec());
+            out
+        }
+    }
+}
+
+fn panic_msg(e: Box<dyn std::any::Any + Send>) -> String {
+    if let Some(s) = e.downcast_ref::<&str>() {
+        s.to_string()
+    } else if let Some(s) = e.downcast_ref::<String>() {
+        s.clone()
+    } else {
+        "?".to_owned()
+    }
+}
+
+/// specific signatures for the known defect classes, generic ones otherwise
+fn panic_signature(entry: &str, line: &str, msg: &str) -> String {
+    if entry == "frange" && line.contains(" size=0 ") && msg.contains("subtract with overflow") {
+        return "files-range-empty-file-underflow".to_owned();
+    }
+    if entry == "files" && line.contains("73697a6530") && msg.contains("subtract with overflow") {
+        // same defect through the Files service (`/size0`)
+        return "files-range-empty-file-underflow".to_owned();
+    }
+    if msg.contains("InvalidHeaderName") {
+        return "h1-header-name-too-long".to_owned();
+    }
+    if entry == "fullurl" && msg.contains("called `Result::unwrap()` on an `Err` value") {
+        return "full-url-unwrap-on-malformed-host".to_owned();
+    }
+    format!("panic-{entry}")
+}
+
+fn hang_signature(entry: &str, _line: &str, what: &str) -> String {
+    if (entry == "mp" && what.starts_with("stalled")) || (entry == "app" && what.contains("multipart route")) {
+        return "multipart-eof-stall".to_owned();
+    }
+    format!("hang-{entry}")
+}
+
+/// A per-worker helper thread executes the cases (so that a case that never returns can be
+/// abandoned by the watchdog); it is replaced after a timeout.
+struct Helper {
+    tx: mpsc::Sender<String>,
+    rx: mpsc::Receiver<Result<Out, String>>,
+}
+
+fn spawn_helper() -> Option<Helper> {
+    let (tx, job_rx) = mpsc::channel::<String>();
+    let (res_tx, rx) = mpsc::channel();
+    std::thread::Builder::new()
+        .stack_size(16 << 20)
+        .spawn(move || {
+            for owned in job_rx {
+                let r = catch_unwind(AssertUnwindSafe(|| {
+                    let words: Vec<&str> = owned.split_ascii_whitespace().collect();
+                    let entry = words.first().copied().unwrap_or("");
+                    let bytes = words.last().and_then(|h| unhex(h)).unwrap_or_default();
+                    let case = Case { entry, words, bytes };
+                    entries::dispatch(&case)
+                }));
+                if res_tx.send(r.map_err(panic_msg)).is_err() {
+                    break;
+                }
+            }
+        })
+        .ok()?;
+    Some(Helper { tx, rx })
+}
+
+thread_local! {
+    static HELPER: std::cell::RefCell<Option<Helper>> = const { std::cell::RefCell::new(None) };
+    static SYS: std::cell::RefCell<Option<actix_rt::SystemRunner>> = const { std::cell::RefCell::new(None) };
+}
+
+/// `block_on` on a per-thread actix System that is reused between cases (only for entries that
+/// leave nothing behind in the runtime: the synchronous codecs, which merely need the date
+/// service that `ServiceConfig::default()` spawns).  A panic discards the System.
+pub fn block_on_reused<F: std::future::Future>(f: F) -> F::Output {
+    let sys = SYS.with(|s| s.borrow_mut().take()).unwrap_or_else(actix_rt::System::new);
+    let out = sys.block_on(f);
+    SYS.with(|s| *s.borrow_mut() = Some(sys));
+    out
+}
+
+/// entries whose output line is predicted by a Lean model; for all others the output column is
+/// the constant `unmodelled` whatever happened, and panics/hangs are reported by the oracle only
+const MODELLED: &[&str] = &["chunk", "len", "cl", "ws", "range", "rpath", "frange", "infom", "cdm"];
+
+fn run(line: &str) -> CaseResult {
+    let mut r = run_inner(line);
+    let entry = line.split_ascii_whitespace().next().unwrap_or("");
+    if !MODELLED.contains(&entry) {
+        r.output = "unmodelled".to_owned();
+    }
+    r
+}
+
+fn run_inner(line: &str) -> CaseResult {
+    let entry = line.split_ascii_whitespace().next().unwrap_or("").to_owned();
+    if timeouts_of(&entry) >= MAX_TIMEOUTS_PER_ENTRY {
+        return CaseResult { output: "SKIPPED".into(), fail: None, nontrivial: false, tags: vec!["skipped-after-timeouts".into()] };
+    }
+    let helper = HELPER.with(|h| h.borrow_mut().take()).or_else(spawn_helper);
+    let Some(helper) = helper else {
+        return CaseResult { output: "spawn-failed".into(), fail: None, nontrivial: false, tags: vec!["spawn-failed".into()] };
+    };
+    if helper.tx.send(line.to_owned()).is_err() {
+        return CaseResult { output: "spawn-failed".into(), fail: None, nontrivial: false, tags: vec!["spawn-failed".into()] };
+    }
+    let got = helper.rx.recv_timeout(WATCHDOG);
+    if got.is_ok() {
+        HELPER.with(|h| *h.borrow_mut() = Some(helper));
+    } else {
+        note_timeout(&entry);
+    } // else: the helper is abandoned (its thread may spin for ever) and a new one is made
+    match got {
+        Ok(Ok(out)) => {
+            let mut tags = out.tags;
+            tags.push(format!("entry:{entry}"));
+            let mut r = CaseResult { output: out.output, fail: None, nontrivial: out.nontrivial, tags };
+            if let Some(w) = out.hang {
+                r.output = "HANG".to_owned();
+                r.tags.push("hang".into());
+                r = r.fail(&hang_signature(&entry, line, &w), format!("no termination within the step budget: {w}"));
+            }
+            r
+        }
+        Ok(Err(msg)) => {
+            let msg = msg.replace('\n', " ");
+            CaseResult {
+                output: "PANIC".to_owned(),
+                fail: Some((panic_signature(&entry, line, &msg), format!("panic: {msg}"))),
+                nontrivial: true,
+                tags: vec!["panic".to_owned(), format!("entry:{entry}")],
+            }
+        }
+        Err(_) => CaseResult {
+            output: "HANG".to_owned(),
+            fail: Some((hang_signature(&entry, line, "watchdog"), format!("no result after {} s wall clock", WATCHDOG.as_secs()))),
+            nontrivial: true,
+            tags: vec!["hang".to_owned(), format!("entry:{entry}")],
+        },
+    }
+}
+
+pub fn prop() -> Prop {
+    Prop { rule: RULE, parallel: true, gen: Box::new(|ctx| gen::gen(ctx)), run: Box::new(run) }
+}
+
